@@ -263,7 +263,7 @@ func (r *vfC02MuxRun) body(addCloser func(func())) {
 			if cap(buf) < b {
 				buf = make([]byte, b+4096)
 			}
-			n, err := c.r.Read(buf[:b])
+			n, err := c.r.Read(buf[:b:b])
 			r.note(map[string]any{"op": "read", "ch": c.name, "real": b, "n": n, "err": fmt.Sprint(err)})
 			if err != nil && errors.Is(err, io.EOF) && c.closed && c.led.Delivered+n == c.led.Written {
 				c.eof = true // the last bytes and the end of the stream in one call
@@ -574,7 +574,7 @@ func vfC02MuxStress(res *vfh.Result, stack string, a, b *vfC02SecPeer, seed uint
 				buf := make([]byte, 300000)
 				for it := 0; ; it++ {
 					b := pick.Pick(sizes, id, 3, it)
-					n, err := rd.Read(buf[:b])
+					n, err := rd.Read(buf[:b:b])
 					eof := err != nil && errors.Is(err, io.EOF)
 					if eof && led.Delivered+n != total {
 						report("mux-early-eof", fmt.Sprintf("stream %d dir %d: EOF after %d of %d bytes", s, d, led.Delivered+n, total), total, led.Delivered+n)
